@@ -359,18 +359,16 @@ class Engine:
             if cond is None:
                 self.oblige(st, "noexc", z3.BoolVal(False), "raise-" + exc)
             else:
-                self.spec_mode += 1
-                try:
-                    g = self.eval_clause(st.old_with_pc(st) if hasattr(st, "old_with_pc") else st.old, cond)
-                finally:
-                    self.spec_mode -= 1
-                self.oblige(st, "raises", g, exc)
+                self.oblige(st, "raises", self.eval_in_pre(st, cond), exc + "-only-if")
             return
         if flow[0] in (Flow.BREAK, Flow.CONTINUE):
             raise Unsupported("break/continue outside loop")
         result = flow[1] if flow[0] == Flow.RETURN else NONE
         st.env["result"] = result
         self.covered_exits += 1
+        for exc, cond in c.raises.items():
+            # "raises exc iff cond": a normal return is only allowed when cond was false in the pre-state
+            self.oblige(st, "raises", z3.Not(self.eval_in_pre(st, cond)), exc + "-if")
         for i, cl in enumerate(c.ensures):
             tag = cl[0] if isinstance(cl, tuple) else str(i)
             text = cl[1] if isinstance(cl, tuple) else cl
@@ -380,6 +378,19 @@ class Engine:
             finally:
                 self.spec_mode -= 1
             self.oblige_parts(st, "ensures", g, tag)
+
+    def eval_in_pre(self, st, clause):
+        """a clause evaluated over the pre-state (parameters and heap at entry) under the current path condition"""
+        tmp = State()
+        o = st.old
+        tmp.env, tmp.heap, tmp.alloc, tmp.ghost = dict(o.env), dict(o.heap), dict(o.alloc), o.ghost
+        tmp.pc = st.pc
+        tmp.old = o
+        self.spec_mode += 1
+        try:
+            return self.eval_clause(tmp, clause)
+        finally:
+            self.spec_mode -= 1
 
     # ------------------------------------------------------------------ clauses (spec expressions)
     def eval_clause(self, st, clause, split=False):
@@ -1412,6 +1423,13 @@ class Engine:
         finally:
             self.spec_mode -= 1
         ord_ = self.call_ordinal(node)
+        for exc, cond in cc.raises.items():
+            self.spec_mode += 1
+            try:
+                g = self.eval_clause(call_st, cond)
+            finally:
+                self.spec_mode -= 1
+            self.oblige(st, "pre@call", z3.Not(g), "%s@%d.no-%s" % (cc.qualname.split(".")[-1].split("::")[-1], self.call_ordinal(node), exc))
         for tag, g in reqs:
             self.oblige_parts(st, "pre@call", g, "%s@%d.%s" % (cc.qualname.split(".")[-1], ord_, tag))
         # snapshot for old()
